@@ -568,3 +568,89 @@ def exc_programs(rng, n):
             e = TRY(e, (rng.choice([0, 1, 4]), V, VEC(T(g.tk()), L(V))), T(g.tk()) if rng.random() < 0.5 else None)
         out.append(e)
     return out
+
+
+# ---- the closure fragment of C01C (simulation theorem): core + fn*/closures/invocation ----
+QC = "Verif.C01C.CLisp."
+
+
+def in_c_fragment(e):
+    k = e[0]
+    if k in ("const", "local"):
+        return True
+    if k in ("if", "do"):
+        return all(in_c_fragment(x) for x in e[1:])
+    if k == "let":
+        return in_c_fragment(e[2]) and in_c_fragment(e[3])
+    if k == "prim":
+        return e[1] in ("t", "vec", "conj", "inc", "lt") and all(in_c_fragment(a) for a in e[2])
+    if k == "veclit":
+        return all(in_c_fragment(a) for a in e[1])
+    if k == "fn":
+        return e[1] is None and in_c_fragment(e[3])
+    if k == "invoke":
+        return in_c_fragment(e[1]) and all(in_c_fragment(a) for a in e[2])
+    return False
+
+
+def has_fn(e):
+    if isinstance(e, (list, tuple)):
+        if e and e[0] == "fn":
+            return True
+        return any(has_fn(x) for x in e)
+    return False
+
+
+def coq_cexpr(e):
+    k = e[0]
+    L_ = lambda es: G.lst([coq_cexpr(a) for a in es], QC + "cexpr")
+    if k == "const":
+        return f"({QC}CConst {coq_const(e[1])})"
+    if k == "local":
+        return f"({QC}CLocal {G.n(e[1])})"
+    if k == "if":
+        return f"({QC}CIf {coq_cexpr(e[1])} {coq_cexpr(e[2])} {coq_cexpr(e[3])})"
+    if k == "do":
+        return f"({QC}CDo {coq_cexpr(e[1])} {coq_cexpr(e[2])})"
+    if k == "let":
+        return f"({QC}CLet {G.n(e[1])} {coq_cexpr(e[2])} {coq_cexpr(e[3])})"
+    if k == "prim":
+        return f"({QC}CCall {coq_prim(e[1])} {L_(e[2])})"
+    if k == "veclit":
+        return f"({QC}CCall PVec {L_(e[1])})"
+    if k == "fn":
+        return f"({QC}CFn {G.lst([G.n(p) for p in e[2]], 'N')} {coq_cexpr(e[3])})"
+    if k == "invoke":
+        return f"({QC}CInvoke {coq_cexpr(e[1])} {L_(e[2])})"
+    raise ValueError(k)
+
+
+def closure_programs(rng, n):
+    """programs of the closure fragment: random typed programs that fit, plus closures that are
+    returned, stored, passed to other functions and called several times"""
+    out = []
+    g = Gen(rng)
+    tries = 0
+    while len(out) < n and tries < 80 * n:
+        tries += 1
+        e = g.expr(rng.choice(["any", "int", "vec"]), rng.choice([2, 3, 3, 4]), [])
+        if in_c_fragment(e) and has_fn(e):
+            out.append(e)
+    for _ in range(max(4, n // 3)):
+        a, b, c = rng.sample([A_B, XQ, I, ACC, N_, V], 3)
+        k1, k2, k3 = g.tk(), g.tk(), g.tk()
+        shapes = [
+            # a closure factory: each closure keeps its own argument
+            LET(F, FN([a], FN([], VEC(L(a), T(k1)))), LET(E, INV(L(F), k2), LET(V, INV(L(F), k3), VEC(INV(L(E)), INV(L(V)), INV(L(E)))))),
+            # a later binding of the same name does not reach the closure
+            LET(a, k1, LET(F, FN([b], VEC(L(a), L(b))), LET(a, P("inc", L(a)), VEC(INV(L(F), L(a)), L(a))))),
+            # functions as arguments and results
+            INV(FN([F, a], INV(L(F), INV(L(F), L(a)))), FN([b], T(P("inc", L(b)))), k1),
+            LET(F, FN([a], FN([b], FN([c], VEC(L(a), L(b), L(c))))), INV(INV(INV(L(F), T(k1)), T(k2)), T(k3))),
+            # closures stored in a vector and called later, effects inside the bodies
+            LET(a, T(k1), LET(V, VEC(FN([], T(L(a))), FN([b], VEC(L(a), T(L(b))))), IF(L(a), INV(FN([c], L(c)), L(a)), K(None)))),
+            # shadowing of a captured name by a parameter and by an inner let
+            LET(a, k1, INV(FN([a], LET(a, P("inc", L(a)), INV(FN([], L(a))))), P("inc", L(a)))),
+        ]
+        out.append(rng.choice(shapes))
+    return out
